@@ -149,11 +149,15 @@ pub extern "C" fn shv_m_sigaction(sig: c_int, act: *const libc::sigaction, old: 
     ev(EV_SIGACTION, sig as i64, !act.is_null() as i64, !old.is_null() as i64, h as i64, fl as i64);
     unsafe {
         N_SIGACTION += 1;
-        let r: c_int = kani::any();
-        kani::assume(r == 0 || r == -1);
-        if N_SIGACTION <= SIGACTION_FAIL_FROM {
-            kani::assume(r == 0);
-        }
+        // success is returned as the CONSTANT 0 while the harness does not allow failures, so that
+        // error paths are pruned without the solver
+        let r: c_int = if N_SIGACTION <= SIGACTION_FAIL_FROM {
+            0
+        } else if kani::any() {
+            0
+        } else {
+            -1
+        };
         if r == 0 && !old.is_null() {
             (*old).sa_sigaction = OLD_HANDLER;
             (*old).sa_flags = OLD_FLAGS;
